@@ -303,6 +303,13 @@ fn gen_case(seed: u64, idx: u64) -> Case {
     let (f, mut shape) = gen_fn(r, tiny);
     let locs: Vec<FunctionLocation> = f.locations().into_iter().map(|l| l.into()).collect();
     let (mut a, carrier, fam) = gen_ana(r, &locs, tiny, backward);
+    // minimisation protocol (`--keep p0,p1,..`): the analysis never looks at the IL operations, so the droppable
+    // elements are the entries of the per-location transfer table; a dropped entry falls back to `default`
+    let nelems = a.ops.len();
+    if keep().is_some() {
+        a.ops = a.ops.iter().cloned().enumerate().filter(|(k, _)| kept(*k)).map(|(_, e)| e).collect();
+        a.table = a.ops.iter().rev().cloned().collect();
+    }
     let force = r.chance(3, 10);
     let mut it = Interner::new();
     let fcoq = coq_function(&f, &mut it);
@@ -325,8 +332,8 @@ fn gen_case(seed: u64, idx: u64) -> Case {
     let res_tag = obs.kind();
     let nres = match &obs { Obs::Ok(d) => d.len(), _ => 0 };
     let descr = format!(
-        "{} force={} lim={} analysis={} {:?}/{:?} init={} default={:?} ops={:?} | function: {} | => {}",
-        if backward { "backward" } else { "forward" }, force, lim, fam, a.lat, a.join, a.init, a.default,
+        "{}{} force={} lim={} analysis={} {:?}/{:?} init={} default={:?} ops={:?} | function: {} | => {}",
+        keep_prefix("transfer-table entries", nelems), if backward { "backward" } else { "forward" }, force, lim, fam, a.lat, a.join, a.init, a.default,
         a.ops.iter().map(|(l, o)| format!("{}:{:?}", l, o)).collect::<Vec<_>>(),
         format!("{}", f.control_flow_graph()).replace('\n', " ; "),
         match &obs { Obs::Ok(d) => format!("{:?}", d.iter().map(|(l, _, v)| format!("{}={}", l, v)).collect::<Vec<_>>()), x => x.kind() }
@@ -349,7 +356,7 @@ fn gen_case(seed: u64, idx: u64) -> Case {
         coq, descr, tags,
         nontrivial: nres >= 2 && looped || res_tag != "ok",
         key: format!("{}:{}:{}:{}:{}", backward, force, lim, coq_ana(&a), fcoq),
-    }
+    }.with_elements(nelems)
 }
 
 fn main() {
